@@ -1181,7 +1181,13 @@ pub(crate) fn eval_query(ctx: &Context, expr: &Query) -> Result<QueryReply, Quer
                 dim_name = ctx
                     .canonicalize(dim.as_str())
                     .unwrap_or_else(|| dim.to_string());
-                let category = ctx.registry.categories.get(&dim_name);
+                // Shown by its long name, but its category is recorded
+                // under the name it is defined by.
+                let category = ctx
+                    .registry
+                    .categories
+                    .get(&dim.to_string())
+                    .or_else(|| ctx.registry.categories.get(&dim_name));
                 out.push((category, &dim_name));
             }
             out.sort_by(|&(ref c1, ref n1), &(ref c2, ref n2)| {
